@@ -1,9 +1,16 @@
 (* C12 -- Formatting options are cosmetic and indentation equals nesting depth.
    Model: model/FormatHtml.v (should_format, get_indent, html_element), model/OutStream.v.
    Proofs: proofs/FormatSteps.v (element() cut into blocks), proofs/FormatChunks.v (chunk view of
-   the stream), proofs/FormatCosmetic.v, proofs/FormatProofs.v. *)
-From Emmet Require Import lib.Base model.MarkupConvert model.OutStream model.FormatHtml
-     proofs.FormatSteps proofs.FormatProofs proofs.FormatChunks proofs.FormatTabstops proofs.FormatCosmetic proofs.FormatDepth proofs.FormatSelfClose.
+   the stream), proofs/FormatCosmetic.v, proofs/FormatProofs.v; the full statements:
+   proofs/FormatLines.v + FormatDepthFull.v + FormatGrows.v (C12_indent_is_depth, C12_close_aligned),
+   proofs/FormatComments.v (C12_comments_additive), proofs/FormatSelfCloseFull.v (C12_selfclose_local).
+   Full: format_cosmetic, level_restored, C12_indent_is_depth, C12_close_aligned, C12_comments_additive,
+   C12_selfclose_local (each on its exact domain, the excluded shapes proved deviating: *_refuted).  The *_partial
+   theorems are the earlier per-invocation statements, kept. *)
+From Coq Require Import ZArith List.
+From Emmet Require Import lib.Base model.MarkupConvert model.MarkupResolve model.OutStream model.FormatHtml proofs.HtmlEvents
+     proofs.FormatSteps proofs.FormatProofs proofs.FormatChunks proofs.FormatTabstops proofs.FormatCosmetic proofs.FormatDepth proofs.FormatSelfClose
+     proofs.FormatLines proofs.FormatDepthFull proofs.FormatSelfCloseFull proofs.FormatComments.
 
 (* SPEC.
    fchunks st      the callback invocations of a run, positions erased: CT text | CF index placeholder
@@ -35,7 +42,7 @@ Print Assumptions format_cosmetic.
    (Adds x y: x is y with TEXT items inserted).  (When an id / class value contains a field, the comment
    repeats it and the later tabstop numbers shift: hence the hypothesis there.)
    _partial: that the inserted items are exactly the instantiated comment templates and sit right
-   before / after the commented element is not expressed by Sub / Adds. *)
+   before / after the commented element is not expressed by Sub / Adds: see C12_comments_additive below. *)
 Theorem comments_additive_partial c children :
   ws_fmt (oc_fmt c) ->
   Sub (texts (content (html_format (with_comment false c) children)))
@@ -50,6 +57,35 @@ Theorem comments_additive_tabstops_partial c children :
 Proof. exact (fun Hf => comments_additive_lemma c Hf children). Qed.
 Print Assumptions comments_additive_tabstops_partial.
 
+(* C12_comments_additive (FULL, proofs/FormatComments.v): for ALL trees and ALL option records (any templates, triggers,
+   formatting options; ws_fmt: the indent / newline strings are blanks).
+     texts (content st)        the text items of a run in order: every chunk written, blank-only chunks dropped, leading
+                               blanks removed, a field counted with its placeholder
+     comment_texts text n      the text items the template `text` writes for node n: its plain parts and, for every
+                               placeholder [before NAME after] whose attribute NAME n has, before ++ value ++ after
+     open_texts n / close_texts n   the items of the chunks `<name` / `</name>` of n
+     CIns c on off             on is off with comment blocks inserted and nothing else changed, dropped or reordered:
+                               ci_same    the same items appended to both
+                               ci_before  on gets comment_texts comment.before n directly before the opening tag of n
+                               ci_after   on gets comment_texts comment.after n directly after the closing tag of n
+                               both only for nodes n with should_comment (comment.enabled, a trigger attribute present)
+   STATEMENT: the items of the comment-on run are those of the comment-off run with exactly these blocks inserted at
+   exactly these places.  Erasing the blocks gives the comment-off items (comments_erase: CIns on off -> Sub off on).
+   Text level rather than chunk level because the two runs are not chunk-equal outside the comments: a comment with
+   a line break changes the line counter, and push_snippet() left-strips the text after the children only when the
+   line changed (` b` vs `b`); tabstop numbers shift when an id / class value holds a field
+   (comments_additive_tabstops_partial gives identical items, numbers included, without such fields). *)
+Theorem C12_comments_additive c children :
+  ws_fmt (oc_fmt c) ->
+  CIns c (texts (content (html_format (with_comment true c) children)))
+         (texts (content (html_format (with_comment false c) children))).
+Proof. exact (fun Hf => comments_positions_lemma c Hf children). Qed.
+Print Assumptions C12_comments_additive.
+
+Theorem comments_erase c on off : CIns c on off -> Sub off on.
+Proof. exact (CIns_Sub c on off). Qed.
+Print Assumptions comments_erase.
+
 (* selfclose_local.  Full statement: the self-closing style changes only the ` /` or `/` before `>`.
    with_style s c       the option record c with output.selfClosingStyle := s
    mark c               the chunk that closes a self-closed tag: self_close c ++ ">", i.e. ">" (html),
@@ -59,13 +95,30 @@ Print Assumptions comments_additive_tabstops_partial.
    off, the two runs make the same callback invocations one by one (blanks, line breaks and tabstop
    numbers included), except that the mark of one style faces the mark of the other.
    _partial only because of the hypothesis: with output.compactBoolean on the statement is false on the
-   code (selfclose_compact_boolean_refuted below, known finding C12:selfclose-compact-boolean). *)
+   code (selfclose_compact_boolean_refuted below, known finding C12:selfclose-compact-boolean).
+   C12_selfclose_local below adds the number of differing positions and writes the closing chunks out. *)
 Theorem selfclose_local_partial c s1 s2 children :
   oc_compact_boolean c = false ->
   Forall2 (same_chunk c s1 s2) (fchunks (html_format (with_style s1 c) children))
                                (fchunks (html_format (with_style s2 c) children)).
 Proof. exact (fun Hc => selfclose_exact_lemma c s1 s2 Hc children). Qed.
 Print Assumptions selfclose_local_partial.
+
+(* C12_selfclose_local (FULL on its exact domain, proofs/FormatSelfCloseFull.v): for ALL trees, ALL pairs of styles
+   and ALL option records with compactBoolean off.
+     close_chunk s      the chunk that closes a self-closed tag under style s: ` />` (xhtml), `/>` (xml), `>` (any other)
+     Differ x y k X Y   the chunk lists X and Y are equal chunk by chunk (blanks, line breaks and tabstop numbers
+                        included), except at exactly k positions where X has x and Y has y
+     nvoid E            the number of elements of the tree that are written self-closed (events SOpen _ true)
+   The two streams are equal except that at exactly one position per self-closed element the closing chunk of style 1
+   faces the closing chunk of style 2.  With output.compactBoolean on the statement is false on the code
+   (selfclose_compact_boolean_refuted, known finding C12:selfclose-compact-boolean): the hypothesis is the exact domain. *)
+Theorem C12_selfclose_local c s1 s2 children :
+  oc_compact_boolean c = false ->
+  Differ (close_chunk s1) (close_chunk s2) (nvoid (flat_map (tree_events c) children))
+         (fchunks (html_format (with_style s1 c) children)) (fchunks (html_format (with_style s2 c) children)).
+Proof. exact (selfclose_local_full_lemma c s1 s2 children). Qed.
+Print Assumptions C12_selfclose_local.
 
 (* indent_is_depth.  Full statement: with formatting on and no element exempted through formatSkip,
    every line after the first starts with baseIndent plus one indent unit per element open at that
@@ -88,11 +141,10 @@ Print Assumptions selfclose_local_partial.
    units (indent_is_depth_partial), (c) the closing line break after the last formatted child carries L - 1
    units = the units of the parent's own line (close_aligned_partial), (d) the lines of a multi-line value
    and the caret line of an empty leaf carry L + 1 units, the line break before the closing tag L units
-   (value_lines_indent, leaf_lines_indent).  Missing: these are statements per invocation of element(), not
-   one statement quantified over every line-break chunk of the final chunk list (that needs the open-
-   element count read off the output, ambiguous for html-style self-closed tags); line breaks written
-   while a value is wrapped around children (push_snippet path) are not covered and deviate on the code
-   (known finding C12:depth-multiline-field-text-with-children). *)
+   (value_lines_indent, leaf_lines_indent).  _partial: these are statements per invocation of element(); the
+   ONE statement quantified over every line-break chunk of the final chunk list is C12_indent_is_depth /
+   C12_close_aligned below (the open-element count read off the tag chunks with the tree events deciding which
+   opening tags are self-closed; the push_snippet shapes that deviate on the code excluded and refuted). *)
 Theorem level_is_depth c st0 top p n i items s L :
   visits c st0 top p n i items s L -> (lvl s + get_indent c p = lvl st0 + L)%Z.
 Proof. exact (level_is_depth_lemma c st0 top p n i items s L). Qed.
@@ -141,6 +193,108 @@ Theorem leaf_lines_indent c nm node st :
              ++ nl_chunks (oc_fmt c) (lvl st) (int_ind (lvl st)).
 Proof. exact (leaf_chunks c nm node st). Qed.
 Print Assumptions leaf_lines_indent.
+
+(* C12_indent_is_depth (FULL; proofs/FormatLines.v, proofs/FormatDepthFull.v): ONE statement quantified over every
+   line-break chunk of the final stream, for ALL trees of the domain [depth_dom] and ALL option records with an
+   empty formatSkip list (output.format on or off; the statement needs no hypothesis on it).
+   SPEC (proofs/FormatLines.v):
+     tree_events c n     the open/close events of the tree in document order (HtmlEvents): SOpen name void | SClose name
+     chunk_tags x        the tag a chunk stands for: `<name` -> TOpen, `</name>` -> TClose, nothing otherwise
+     open_at E pre       the number of elements open after the chunks pre: the i-th tag chunk of the stream is the i-th
+                         event of E (tag_chunks_are_events below), an open event counts +1 unless the element is written
+                         self-closed, a close event -1
+     starts_close more   the first text on the line is a closing tag (empty text chunks skipped; a tabstop is text)
+     indented f k rest more   rest = the indentation chunk of k units followed by more; the stream writes no
+                         indentation chunk for an explicit size 0: then k = 0 and rest = more
+   STATEMENT: every chunk written by push_newline (ghost flag true) is output.newline ++ output.baseIndent and is
+   followed by exactly k indent units, k = number of elements open at that point, one less when the line starts with a
+   closing tag (the closing tag then has the indentation of its opening tag's line: C12_close_aligned).
+   DOMAIN, exactly:
+     cfg_depth c         newline ++ baseIndent and indent do not start with '<'; comments off, or on with templates no
+                         line of which is read as a tag chunk (`<!-- ...` is none: the default templates qualify);
+                         no '<', CR, LF in the markup.attributes / markup.valuePrefix tables
+     depth_dom c forest  for every node: name without '<', CR, LF, not starting with '/' or '!'; attributes only on named
+                         nodes (as the resolver guarantees: implicit tag); no '<' in text; attribute names and values
+                         without '<', CR, LF (a line break inside an opening tag is indented by the elements open
+                         BEFORE that tag: outside the tag-chunk reading of open_at); and for every named element
+       last_ok           its last child is an element (whose comment.after, if it gets one, ends on its line:
+                         comment_quiet), or is line-broken itself (should_format), or is a text that ends on its line
+                         (ends_text: no children and a non-empty last line; or a text without field whose last child
+                         is not line-broken and ends on its line).  Technical: keeps `</name>` from
+                         following a pending empty line; no deviation of the code is known outside it (21k generated
+                         abbreviations with text nodes with children, three inlineBreak values: none)
+       snippet_ok        if its text has a field and it has children (push_snippet path): the text has no line break
+                         and, when the last child is line-broken, the text ends with that field.
+   The shapes excluded by snippet_ok are exactly those on which the code deviates: known finding
+   C12:depth-multiline-field-text-with-children (continuation lines of the text, and the rest of the text after the
+   children, get the level of the element instead of level + 1): C12_depth_multiline_field_text_refuted and
+   C12_depth_text_after_children_refuted prove the deviation on the model.
+   Not covered: line breaks inside attribute values and inside field placeholders (the latter are no newline events:
+   C13).  (tag_chunks_are_events, which justifies the reading of open_at, is proved for comments off.) *)
+Theorem C12_indent_is_depth c forest :
+  oc_format_skip c = [] -> cfg_depth c = true -> depth_dom c forest = true ->
+  forall pre s rest, fchunks (html_format c forest) = pre ++ CT true s :: rest ->
+    s = of_newline (oc_fmt c) ++ of_base_indent (oc_fmt c) /\
+    exists k more, indented (oc_fmt c) k rest more /\
+                   k = (open_at (flat_map (tree_events c) forest) pre - (if starts_close more then 1 else 0))%Z.
+Proof. exact (indent_is_depth_full_lemma c forest). Qed.
+Print Assumptions C12_indent_is_depth.
+
+(* the reading of open_at is the reading of the output: the tag chunks of the stream are the events of the tree, one by one *)
+Theorem tag_chunks_are_events c forest :
+  oc_comment_enabled c = false -> cfg_depth c = true -> depth_dom c forest = true ->
+  flat_map chunk_tags (fchunks (html_format c forest)) = map erase (flat_map (tree_events c) forest).
+Proof. exact (FormatDepthFull.tag_chunks_are_events c forest). Qed.
+Print Assumptions tag_chunks_are_events.
+
+Theorem C12_depth_multiline_field_text_refuted :
+  oc_format_skip dx_cfg = [] /\ cfg_depth dx_cfg = true /\ depth_dom dx_cfg dx_multiline = false /\
+  ~ lines_indented (oc_fmt dx_cfg) (flat_map (tree_events dx_cfg) dx_multiline) (fchunks (html_format dx_cfg dx_multiline)).
+Proof. exact depth_multiline_field_text_refuted. Qed.
+Print Assumptions C12_depth_multiline_field_text_refuted.
+
+Theorem C12_depth_text_after_children_refuted :
+  oc_format_skip dx_cfg = [] /\ cfg_depth dx_cfg = true /\ depth_dom dx_cfg dx_after = false /\
+  ~ lines_indented (oc_fmt dx_cfg) (flat_map (tree_events dx_cfg) dx_after) (fchunks (html_format dx_cfg dx_after)).
+Proof. exact depth_text_after_children_refuted. Qed.
+Print Assumptions C12_depth_text_after_children_refuted.
+
+(* C12_close_aligned (FULL; same proof as C12_indent_is_depth with the alignment obligation threaded through):
+   a closing tag that is first on its line has the indentation of the line on which its opening tag stands.
+   SPEC (proofs/FormatLines.v):
+     line_of f A k           the chunks A end on a line with k indent units: A has no line break and k = 0 (the first
+                             line), or A = A1 ++ line break of k units ++ chunks without line break
+     opens_innermost E A o B the chunk o (after A, before B) is the opening tag of the innermost element that is open
+                             after A ++ o :: B: o raises the number of open elements by one, to its value after B, and
+                             that number never falls below it inside B
+     aligned_at f E pre k    every such opening tag chunk o, pre = A ++ o :: B, stands on a line with k units
+   STATEMENT: for every line-break chunk (reading k, more as in C12_indent_is_depth): if the first text on the line is a
+   closing tag, the opening tag of the element it closes stands on a line with the same k units.  Same reading of
+   "aligned" as the oracle harness/format_util.depth_check: the indentation of the closing tag's line against the
+   indentation of the line of the opening tag, the first line counting as baseIndent + 0 units.
+   DOMAIN: that of C12_indent_is_depth, and
+     align_dom c forest      every element whose closing tag goes on a line of its own (closes_own_line: its last child is
+                             line-broken; or no children and a text with a line break; or an empty leaf under
+                             formatLeafNode / formatForce) is line-broken itself (should_format), or is the very first node.
+   The excluded shapes deviate on the code: known finding C12:close-aligned-inline-leaf-inner-format (an inline leaf
+   with inner formatting), proved on the model by C12_close_aligned_inline_leaf_refuted; and inline elements that
+   are not line-broken although their last child is (should_format() asks its children with the grandparent as
+   parent: the first top-level rule "do not format the very first node" fires for the first child of a top-level inline
+   element), recorded as finding C12:close-aligned-unformatted-inline-parent. *)
+Theorem C12_close_aligned c forest :
+  oc_format_skip c = [] -> cfg_depth c = true -> depth_dom c forest = true -> align_dom c forest = true ->
+  forall pre s rest, fchunks (html_format c forest) = pre ++ CT true s :: rest ->
+    exists k more, indented (oc_fmt c) k rest more /\
+                   k = (open_at (flat_map (tree_events c) forest) pre - (if starts_close more then 1 else 0))%Z /\
+                   (starts_close more = true -> aligned_at (oc_fmt c) (flat_map (tree_events c) forest) pre k).
+Proof. exact (close_aligned_full_lemma c forest). Qed.
+Print Assumptions C12_close_aligned.
+
+Theorem C12_close_aligned_inline_leaf_refuted :
+  oc_format_skip ax_cfg = [] /\ cfg_depth ax_cfg = true /\ depth_dom ax_cfg ax_tree = true /\ align_dom ax_cfg ax_tree = false /\
+  ~ lines_aligned (oc_fmt ax_cfg) (flat_map (tree_events ax_cfg) ax_tree) (fchunks (html_format ax_cfg ax_tree)).
+Proof. exact close_aligned_inline_leaf_refuted. Qed.
+Print Assumptions C12_close_aligned_inline_leaf_refuted.
 
 (* level_restored: the indentation level (the number of indent units a line break made now
    would be followed by) is the same after an element as before it, for ALL trees, sibling
@@ -233,3 +387,77 @@ Proof.
   match goal with |- exists pre post, ?X = _ => exists (firstn 5 X), (skipn 10 X) end.
   vm_compute. reflexivity.
 Qed.
+
+(* Non-vacuity of C12_indent_is_depth: <div><p>hi</p><span title="${1}"> x</span></div> under the default options is in
+   the domain; its stream has three line breaks: before <p and before <span with 1 unit (div is open), before </div>
+   with none (explicit size 0: no indentation chunk). *)
+Example indent_is_depth_nonvacuous :
+  oc_format_skip ex_c1 = [] /\ cfg_depth ex_c1 = true /\ depth_dom ex_c1 ex_tree = true /\
+  exists pre rest more,
+    fchunks (html_format ex_c1 ex_tree) = pre ++ CT true [10%N] :: rest /\
+    indented (oc_fmt ex_c1) 1 rest more /\ open_at (flat_map (tree_events ex_c1) ex_tree) pre = 1%Z /\ starts_close more = false.
+Proof.
+  split; [reflexivity|]. split; [reflexivity|]. split; [reflexivity|].
+  match goal with |- exists pre rest more, ?X = _ /\ _ =>
+    let X' := eval vm_compute in X in exists (firstn 2 X'), (skipn 3 X'), (skipn 4 X') end.
+  split; [vm_compute; reflexivity|]. split; [left; vm_compute; reflexivity|]. split; vm_compute; reflexivity.
+Qed.
+
+(* Non-vacuity of C12_selfclose_local: <div><br/></div> under html and xhtml: one differing position, `>` against ` />`. *)
+Example selfclose_nonvacuous :
+  let t := [ANode (Some [100;105;118]%N) None None None [ANode (Some [98;114]%N) None None None [] true] false] in
+  oc_compact_boolean ex_c1 = false /\ nvoid (flat_map (tree_events ex_c1) t) = 1 /\
+  close_chunk s_html = CT false [62%N] /\ close_chunk s_xhtml = CT false [32;47;62]%N /\
+  fchunks (html_format (with_style s_html ex_c1) t) <> fchunks (html_format (with_style s_xhtml ex_c1) t).
+Proof. cbv zeta. repeat split; try reflexivity. vm_compute. discriminate. Qed.
+
+(* Non-vacuity of C12_close_aligned: the same tree is in align_dom; the last line break (before </div>) has 0 units, the
+   line starts with the closing tag, and the opening tag <div stands on the first line. *)
+Example close_aligned_nonvacuous :
+  align_dom ex_c1 ex_tree = true /\
+  exists pre rest, fchunks (html_format ex_c1 ex_tree) = pre ++ CT true [10%N] :: rest /\
+                   starts_close rest = true /\ open_at (flat_map (tree_events ex_c1) ex_tree) pre = 1%Z /\
+                   line_of (oc_fmt ex_c1) [] 0.
+Proof.
+  split; [reflexivity|].
+  match goal with |- exists pre rest, ?X = _ /\ _ =>
+    let X' := eval vm_compute in X in exists (firstn 18 X'), (skipn 19 X') end.
+  split; [vm_compute; reflexivity|]. split; [vm_compute; reflexivity|]. split; [vm_compute; reflexivity|].
+  left. split; [intros s0 []|reflexivity].
+Qed.
+
+(* Non-vacuity of C12_comments_additive: <div id="a"> with the default comment.after template "\n<!-- /[#ID][.CLASS] -->":
+   div satisfies should_comment, the template writes the three items `<!-- /`, `#a`, ` -->`... after `</div>`. *)
+Example comments_positions_nonvacuous :
+  let n := ANode (Some [100;105;118]%N) None None
+                 (Some [mkAAttr (Some [105;100]%N) (Some [VStr [97]%N]) VRaw false false false]) [] false in
+  let c := mkOconfig (mkOfmt [9] [] [10])%N [] [] [] true false [] [] 3 false [] s_html [] false [[105;100]]%N []
+                     [10;60;33;45;45;32;47;91;35;73;68;93;91;46;67;76;65;83;83;93;32;45;45;62]%N false None None in
+  should_comment (with_comment true c) n = true /\
+  length (comment_texts (oc_comment_after c) n) = 4 /\
+  texts (content (html_format (with_comment true c) [n])) =
+  texts (content (html_format (with_comment false c) [n])) ++ comment_texts (oc_comment_after c) n.
+Proof. cbv zeta. split; [reflexivity|]. split; vm_compute; reflexivity. Qed.
+
+(* The domains hold on what the parser and resolver produce: div>p{a\nb}+ul>li*2+span>em (html, no snippets) is in
+   depth_dom and align_dom; its stream has 49 chunks. *)
+Example domains_on_parser_output :
+  let mc := mkMConfig [104;116;109;108]%N [] [] WNone None None false None [[115;112;97;110];[101;109]]%N false false false [] [] None in
+  let ab := [100;105;118;62;112;123;97;10;98;125;43;117;108;62;108;105;42;50;43;115;112;97;110;62;101;109]%N in
+  match markup_parse mc ab with
+  | Ok t => depth_dom ex_c1 t = true /\ align_dom ex_c1 t = true /\ length (fchunks (html_format ex_c1 t)) = 49
+  | _ => False
+  end.
+Proof. vm_compute. repeat split. Qed.
+
+(* Non-vacuity with comments on: <div id="a"><p>hi</p></div> under the default comment templates is in both domains;
+   the comment goes on a line of its own after </div>, with 0 units, no element open. *)
+Example indent_is_depth_comments_nonvacuous :
+  let t := [ANode (Some [100;105;118]%N) None None
+                  (Some [mkAAttr (Some [105;100]%N) (Some [VStr [97]%N]) VRaw false false false])
+                  [ANode (Some [112]%N) (Some [VStr [104;105]%N]) None None [] false] false] in
+  let c := mkOconfig (mkOfmt [9] [] [10])%N [] [] [] true false [] [] 3 false [] s_html [] true [[105;100]]%N []
+                     [10;60;33;45;45;32;47;91;35;73;68;93;91;46;67;76;65;83;83;93;32;45;45;62]%N false None None in
+  oc_comment_enabled c = true /\ cfg_depth c = true /\ depth_dom c t = true /\ align_dom c t = true /\
+  length (filter is_nl (fchunks (html_format c t))) = 3.
+Proof. cbv zeta. repeat split; vm_compute; reflexivity. Qed.
